@@ -36,6 +36,7 @@
 import AnnVerif.Model.Node
 import AnnVerif.Model.BitArr
 import AnnVerif.Lemmas.Assembled
+import AnnVerif.Lemmas.NodeStart
 namespace AnnVerif.C08
 open AnnVerif AnnVerif.Node
 
@@ -325,10 +326,10 @@ example : (Node.init repaired 1 v4 (some 1) false).cfg.guardNilLastCommit = true
     complete part set, and `finalizeCommit` has never handed an incomplete part set to
     `BlockStore.SaveBlock` (which panics on one, on the consensus routine). -/
 theorem run_never_saves_incomplete_part_set (height : Int) (vals : ValSet.ValSet) (me : Option Nat) (skip : Bool)
-    (ins : List In) :
-    let n := ins.foldl stepIn (Node.init repaired height vals me skip)
+    (tab : List (Name × Int × Bool)) (ins : List In) :
+    let n := ins.foldl stepIn (Node.start repaired height vals me skip tab)
     savePanic ∉ n.out ∧ ∀ b, n.proposalBlock = some b → n.partsComplete = true ∧ n.proposalParts = some b := by
-  have g := run_good ins _ (init_good height vals me skip)
+  have g := run_good ins _ (start_good height vals me skip tab)
   exact ⟨g.nsp, g.asm⟩
 
 /-- the invariant is inductive from ANY state that satisfies it, not only from a fresh node -/
